@@ -547,3 +547,1163 @@ Theorem no_deadlock g par bufsz items gated s :
 Proof. intros Hg Hr. apply progress_inv. eapply reachable_inv; eauto. Qed.
 End Proofs.
 End MIP.
+
+(* ------------------------------------------------------------------ *)
+(* Part 3: MapStream — the invariant                                   *)
+(* ------------------------------------------------------------------ *)
+Module MSP.
+Import MS.
+
+Definition held (x : wpc) : option nat :=
+  match x with THas k | TInF k | TSend k _ => Some k | _ => None end.
+Definition holdsb (k : nat) (x : wpc) : bool :=
+  match held x with Some j => Nat.eqb j k | None => false end.
+Definition wcnt (k : nat) (l : list wpc) : nat := wsum (fun x => b2n (holdsb k x)) l.
+(* where item k is: in a worker's hands, in the channel buffer, or in the re-order heap *)
+Definition cnt (s : st) (k : nat) : nat := wcnt k (ws s) + hcnt k (cbuf s) + hcnt k (heap s).
+Definition inrange (s : st) (k : nat) : bool := (next s <=? k) && (k <? ndisp s).
+
+Definition wcarry (x : wpc) : option err := match x with TExit r | TRet r => r | _ => None end.
+Definition dcarry (d : dpc) : option err :=
+  match d with SCloseIn r | SCloseSrc r | SInClose r | SRet r => r | _ => None end.
+Definition is_some {A} (o : option A) : bool := match o with Some _ => true | None => false end.
+Definition nerrw (l : list wpc) : nat := wsum (fun x => b2n (is_some (wcarry x))) l.
+Definition wfin (x : wpc) : bool := match x with TDone => true | _ => false end.
+Definition wexited (x : wpc) : bool := match x with TRet _ | TDone => true | _ => false end.
+Definition dpast (d : dpc) : bool :=       (* close(in) executed *)
+  match d with SCloseSrc _ | SInClose _ | SRet _ | SDone => true | _ => false end.
+Definition dclosed (d : dpc) : bool :=     (* s.Close() entered *)
+  match d with SInClose _ | SRet _ | SDone => true | _ => false end.
+Definition ddone (d : dpc) : bool := match d with SDone => true | _ => false end.
+Definition kput (c : cpc) : nat := match c with KPut _ _ => 1 | _ => 0 end.
+Definition kwaiting (c : cpc) : bool := match c with KSel _ | KWait => true | _ => false end.
+Definition kclosed (c : cpc) : bool := match c with KCloseRet | KClosed => true | _ => false end.
+
+(* an error value is justified by what the up-calls / the caller actually did *)
+Definition valid_err (fl : list nat) (fe : list bool) (sf cc pd : bool) (e : err) : Prop :=
+  match e with
+  | EF k => In k fl /\ nthb fe k = true
+  | ESrc => sf = true
+  | ECtx ByClose => cc = true
+  | ECtx ByParent => pd = true
+  | ECtx ByError => False
+  | ECtx ByWait => False
+  end.
+Definition valid_err_s (s : st) (e : err) : Prop :=
+  valid_err (failed s) (ferr s) (srcfailed s) (close_called s) (pdone s) e.
+(* an error value a goroutine is about to hand to the errgroup *)
+Definition carrier_ok (ee : option err) (fl : list nat) (fe : list bool) (sf cc pd : bool) (e : err) : Prop :=
+  match e with
+  | ECtx ByError => ee <> None
+  | ECtx ByWait => False
+  | _ => valid_err fl fe sf cc pd e
+  end.
+Definition carrier_ok_s (s : st) (e : err) : Prop :=
+  carrier_ok (eg_err s) (failed s) (ferr s) (srcfailed s) (close_called s) (pdone s) e.
+
+Definition d_ok (s : st) : Prop :=
+  match disp s with
+  | SPull | SInSrc => pulled s = taken s /\ taken s = ndisp s
+  | SWait k => pulled s = S (taken s) /\ taken s = ndisp s /\ k = ndisp s
+  | SSend k => pulled s = taken s /\ taken s = S (ndisp s) /\ k = ndisp s
+  | _ => ndisp s <= taken s <= S (ndisp s) /\ taken s <= pulled s <= S (taken s)
+  end.
+(* the dispatcher left its loop because the source ended *)
+Definition d_normal (s : st) : Prop :=
+  match disp s with
+  | SCloseIn None | SCloseSrc None | SInClose None | SRet None => pulled s = length (src s) /\ ndisp s = pulled s
+  | SDone => eg_err s = None -> pulled s = length (src s) /\ ndisp s = pulled s
+  | _ => True
+  end.
+Definition wexit_ok (ic : bool) (ee : option err) (x : wpc) : Prop :=
+  match x with
+  | TExit None | TRet None => ic = true
+  | TDone => ic = true \/ ee <> None
+  | _ => True
+  end.
+Definition g_ok (s : st) : Prop :=
+  match g s with
+  | GLive => eg_err s = None /\ close_called s = false
+  | GDone ByError => eg_err s <> None
+  | GDone ByClose => close_called s = true
+  | GDone ByParent => pdone s = true
+  | GDone ByWait => egdone s = S (length (ws s))
+  end.
+
+Section Proofs.
+Variable fv : Z -> Z.
+
+Definition entry_ok (s : st) (e : entry) : Prop := snd e = fv (nth (fst e) (src s) 0%Z).
+
+Record Inv (s : st) : Prop := {
+  i_par : 1 <= length (ws s) /\ length (ws s) <= buf s;
+  i_pull : pulled s <= length (src s);
+  i_dok : d_ok s;
+  i_tok : tokens s + taken s + kput (cons s) = buf s + next s;
+  i_next : next s <= ndisp s;
+  i_cnt : forall k, cnt s k <= b2n (inrange s k);
+  i_cov : eg_err s = None -> nerrw (ws s) = 0 -> forall k, cnt s k = b2n (inrange s k);
+  i_wval : forall w k v, nth_error (ws s) w = Some (TSend k v) -> v = fv (nth k (src s) 0%Z);
+  i_cval : Forall (entry_ok s) (cbuf s);
+  i_hval : Forall (entry_ok s) (heap s);
+  i_sorted : StronglySorted hle (heap s);
+  i_yield : yielded s = map fv (firstn (next s) (src s));
+  i_inclosed : in_closed s = dpast (disp s);
+  i_wexit : forall w x, nth_error (ws s) w = Some x -> wexit_ok (in_closed s) (eg_err s) x;
+  i_ndone : ndone s = wsum (fun x => b2n (wexited x)) (ws s);
+  i_cclosed : c_closed s = Nat.eqb (ndone s) (length (ws s));
+  i_egdone : egdone s = wsum (fun x => b2n (wfin x)) (ws s) + b2n (ddone (disp s));
+  i_srcclosed : src_closed s = b2n (dclosed (disp s));
+  i_nomatch : kwaiting (cons s) = true -> hmatch (heap s) (next s) = false;
+  i_kwait : cons s = KWait -> c_closed s = true /\ cbuf s = [];
+  i_g : g_ok s;
+  i_egerr : forall e, eg_err s = Some e -> valid_err_s s e;
+  i_wcarry : forall w x e, nth_error (ws s) w = Some x -> wcarry x = Some e -> carrier_ok_s s e;
+  i_dcarry : forall e, dcarry (disp s) = Some e -> carrier_ok_s s e;
+  i_failed : forall k, In k (failed s) -> next s <= k /\ k < ndisp s /\ cnt s k = 0;
+  i_dnormal : d_normal s;
+  i_end : cons s = KRet REnd -> next s = length (src s);
+  i_reterr : forall e, cons s = KRet (RErr e) -> valid_err_s s e;
+  i_kclosed : kclosed (cons s) = true -> egdone s = S (length (ws s))
+}.
+
+Lemma wcnt_upd k l w x y :
+  nth_error l w = Some y -> wcnt k (upd l w x) + b2n (holdsb k y) = wcnt k l + b2n (holdsb k x).
+Proof. intros H. unfold wcnt. apply (wsum_upd (fun q => b2n (holdsb k q)) l w x y H). Qed.
+
+Lemma valid_err_mono fl fe sf cc pd fl' sf' cc' pd' e :
+  valid_err fl fe sf cc pd e ->
+  (forall k, In k fl -> In k fl') -> (sf = true -> sf' = true) -> (cc = true -> cc' = true) ->
+  (pd = true -> pd' = true) -> valid_err fl' fe sf' cc' pd' e.
+Proof.
+  intros H Hf Hs Hc Hp. destruct e as [k| |c]; simpl in *; [destruct H; split; auto | auto |].
+  destruct c; auto.
+Qed.
+
+Lemma carrier_ok_mono ee fl fe sf cc pd ee' fl' sf' cc' pd' e :
+  carrier_ok ee fl fe sf cc pd e ->
+  (ee <> None -> ee' <> None) ->
+  (forall k, In k fl -> In k fl') -> (sf = true -> sf' = true) -> (cc = true -> cc' = true) ->
+  (pd = true -> pd' = true) -> carrier_ok ee' fl' fe sf' cc' pd' e.
+Proof.
+  intros H He Hf Hs Hc Hp. destruct e as [k| |c]; simpl in *; [destruct H; split; auto | auto |].
+  destruct c; auto.
+Qed.
+
+Lemma valid_carrier ee fl fe sf cc pd e : valid_err fl fe sf cc pd e -> carrier_ok ee fl fe sf cc pd e.
+Proof. destruct e as [k| |c]; simpl; auto. destruct c; simpl; tauto. Qed.
+
+(* what the errgroup keeps: a recorded error was a justified carrier that came first *)
+Lemma carrier_valid_first fl fe sf cc pd e :
+  carrier_ok None fl fe sf cc pd e -> valid_err fl fe sf cc pd e.
+Proof. destruct e as [k| |c]; simpl; auto. destruct c; simpl; auto; congruence. Qed.
+
+Lemma wexit_ok_mono ic ee ic' ee' x :
+  wexit_ok ic ee x -> (ic = true -> ic' = true) -> (ee <> None -> ee' <> None) -> wexit_ok ic' ee' x.
+Proof. intros H Hi He. destruct x as [| | | |r|r|]; simpl in *; auto; [destruct r; auto | destruct r; auto | tauto]. Qed.
+
+Lemma wsum_lt_length {A} (m : A -> nat) l w x :
+  (forall y, m y <= 1) -> nth_error l w = Some x -> m x = 0 -> wsum m l < length l.
+Proof.
+  intros Hm. revert w. induction l as [|h t IH]; intros [|w] Hx H0; simpl in *; try discriminate.
+  - inversion Hx; subst. pose proof (wsum_le_length m t Hm). lia.
+  - specialize (IH w Hx H0). specialize (Hm h). lia.
+Qed.
+
+Lemma wfin_le1 y : b2n (wfin y) <= 1.
+Proof. destruct (wfin y); simpl; lia. Qed.
+Lemma wexited_le1 y : b2n (wexited y) <= 1.
+Proof. destruct (wexited y); simpl; lia. Qed.
+
+(* the group's context was cancelled by somebody entitled to: what a goroutine that observes it
+   returns is a justified carrier, unless everything has already finished *)
+Lemma ctx_carrier s c :
+  g_ok s -> g s = GDone c -> egdone s <> S (length (ws s)) -> carrier_ok_s s (ECtx c).
+Proof.
+  unfold g_ok, carrier_ok_s. intros Hg E Hn. rewrite E in Hg. destruct c; simpl; auto.
+Qed.
+
+Lemma inv_init c : (1 <= c_gomaxprocs c)%Z -> Inv (init c).
+Proof.
+  intros Hg. pose proof (norm_par_pos _ (c_par c) Hg) as Hp.
+  pose proof (norm_buf_ge (norm_par (c_gomaxprocs c) (c_par c)) (c_bufsz c)) as Hb.
+  set (p := norm_par (c_gomaxprocs c) (c_par c)) in *.
+  assert (Hrep : forall w x, nth_error (repeat TIdle (Z.to_nat p)) w = Some x -> x = TIdle).
+  { intros w x H. apply nth_error_In in H. apply repeat_spec in H. exact H. }
+  constructor; unfold init, d_ok, d_normal, g_ok, cnt, inrange, wcnt, nerrw, valid_err_s, carrier_ok_s; fold p; simpl;
+    rewrite ?repeat_length, ?wsum_repeat; simpl; try lia; try discriminate; auto.
+  all: try (intros; discriminate).
+  - intros k. rewrite wsum_repeat. unfold hcnt. simpl. lia.
+  - intros _ _ k. rewrite wsum_repeat. unfold hcnt. simpl. lia.
+  - intros w k v H. apply Hrep in H. discriminate H.
+  - constructor.
+  - intros w x H. apply Hrep in H. subst x. exact I.
+  - destruct (Z.to_nat p) eqn:E; [lia | reflexivity].
+  - intros w x e H. apply Hrep in H. subst x. discriminate.
+Qed.
+
+Ltac start HI := destruct HI as [Hpar Hpull Hdok Htok Hnext Hcnt Hcov Hwval Hcval Hhval Hsorted Hyield Hincl Hwexit
+  Hndone Hcclosed Hegdone Hsrccl Hnomatch Hkwait Hg Hegerr Hwcarry Hdcarry Hfailed Hdnormal Hend Hreterr Hkclosed].
+Ltac prj := cbn [src ferr serr buf fgated sgated frel srel reqs nctx pdone g eg_err egdone pulled disp tokens ws
+                 in_closed ndone cbuf c_closed heap next cons yielded taken ndisp failed srcfailed close_called
+                 src_closed set_disp set_w set_cons set_g set_harness getw
+                 kput kwaiting kclosed dpast dclosed ddone dcarry b2n] in *.
+Ltac pre := unfold d_ok, d_normal, g_ok, cnt, inrange, valid_err_s, carrier_ok_s, entry_ok, set_disp, set_w, set_cons,
+            set_g, set_harness, getw in *; prj.
+Ltac rw :=
+  repeat match goal with
+         | E : disp _ = _ |- _ => rewrite E in *; clear E
+         | E : cons _ = _ |- _ => rewrite E in *; clear E
+         | E : g _ = _ |- _ => rewrite E in *; clear E
+         end; prj.
+Ltac bdestr :=
+  repeat match goal with
+         | |- context [Nat.eqb ?a ?b] => destruct (Nat.eqb_spec a b)
+         | H : context [Nat.eqb ?a ?b] |- _ => destruct (Nat.eqb_spec a b)
+         | |- context [Nat.leb ?a ?b] => destruct (Nat.leb_spec a b)
+         | H : context [Nat.leb ?a ?b] |- _ => destruct (Nat.leb_spec a b)
+         | |- context [Nat.ltb ?a ?b] => destruct (Nat.ltb_spec a b)
+         | H : context [Nat.ltb ?a ?b] |- _ => destruct (Nat.ltb_spec a b)
+         end; cbn [b2n andb orb negb] in *; try lia.
+Ltac easy1 :=
+  first [ assumption | lia | discriminate | congruence | exact I
+        | (intros; discriminate) | (intros; congruence) | (intros; lia) | (intros; assumption)
+        | (split; intros; congruence) | (intros [?|?]; congruence) ].
+(* open a step lemma: invert the step, name the invariant's fields, split the goal *)
+Ltac open_step HI Hs :=
+  unfold step in Hs; dstep Hs; try discriminate Hs; injection Hs as Hs; subst; start HI; pre; rw.
+Ltac wq Hy :=
+  intros until 1;
+  match goal with
+  | H : nth_error (upd _ _ _) _ = Some _ |- _ =>
+      destruct (nth_upd_cases _ _ _ _ _ _ Hy H) as [[? ?]|[? ?]]; subst
+  end.
+
+Ltac bools :=
+  repeat match goal with
+         | H : _ && _ = true |- _ => apply andb_true_iff in H; destruct H
+         | H : Nat.eqb _ _ = true |- _ => apply Nat.eqb_eq in H
+         | H : Nat.ltb _ _ = true |- _ => apply Nat.ltb_lt in H
+         | H : Nat.leb _ _ = true |- _ => apply Nat.leb_le in H
+         | H : negb _ = true |- _ => apply negb_true_iff in H
+         end.
+
+Ltac mono :=
+  first [ (intros; eapply valid_err_mono; [eauto | auto with datatypes ..]; fail)
+        | (intros; eapply carrier_ok_mono; [eauto | auto with datatypes ..]; fail)
+        | (intros; eapply wexit_ok_mono; [eauto | auto ..]; fail) ].
+
+Lemma step_LSrcEnter s s' : Inv s -> step fv s LSrcEnter = Some s' -> Inv s'.
+Proof. intros HI Hs. open_step HI Hs. constructor; pre; try easy1. Qed.
+
+Lemma not_done_disp s : egdone s = wsum (fun x => b2n (wfin x)) (ws s) + b2n (ddone (disp s)) ->
+  ddone (disp s) = false -> egdone s <> S (length (ws s)).
+Proof.
+  intros H Hd. rewrite Hd in H. simpl in H.
+  pose proof (wsum_le_length (fun x => b2n (wfin x)) (ws s) wfin_le1). lia.
+Qed.
+
+Lemma not_done_w s w x : egdone s = wsum (fun x => b2n (wfin x)) (ws s) + b2n (ddone (disp s)) ->
+  nth_error (ws s) w = Some x -> wfin x = false -> egdone s <> S (length (ws s)).
+Proof.
+  intros H Hx Hf.
+  pose proof (wsum_lt_length (fun x => b2n (wfin x)) (ws s) w x wfin_le1 Hx) as L. cbv beta in L.
+  rewrite Hf in L. specialize (L eq_refl). destruct (ddone (disp s)); simpl in H; lia.
+Qed.
+
+Lemma step_LSrcExit o s s' : Inv s -> step fv s (LSrcExit o) = Some s' -> Inv s'.
+Proof.
+  intros HI Hs. pose proof (i_g _ HI) as Hg0. pose proof (i_egdone _ HI) as He0.
+  unfold step in Hs. destruct (disp s) eqn:Ed; try discriminate Hs.
+  assert (Hnd : egdone s <> S (length (ws s))) by (apply not_done_disp; [rewrite Ed; exact He0 | rewrite Ed; reflexivity]).
+  destruct o.
+  - dstep Hs. injection Hs as Hs; subst. start HI; pre; rw; bools; subst. constructor; pre; try easy1.
+  - dstep Hs. injection Hs as Hs; subst. start HI; pre; rw; bools; subst. constructor; pre; try easy1.
+  - dstep Hs. injection Hs as Hs; subst. start HI; pre; rw; bools; subst. constructor; pre; try easy1; try mono.
+    intros e He. inversion He; subst. simpl. reflexivity.
+  - destruct (g s) eqn:Eg; try discriminate Hs. dstep Hs. injection Hs as Hs; subst.
+    pose proof (ctx_carrier s c Hg0 Eg Hnd) as Hc.
+    start HI; pre; rw; bools; subst. constructor; pre; try easy1; try mono.
+Qed.
+
+Ltac simple_step := let HI := fresh "HI" in let Hs := fresh "Hs" in
+  intros HI Hs; open_step HI Hs; bools; subst; constructor; pre; try easy1; try mono.
+
+Lemma step_LSrcCloseEnter s s' : Inv s -> step fv s LSrcCloseEnter = Some s' -> Inv s'.
+Proof. simple_step. Qed.
+Lemma step_LSrcCloseExit s s' : Inv s -> step fv s LSrcCloseExit = Some s' -> Inv s'.
+Proof. simple_step. Qed.
+Lemma step_LReq c s s' : Inv s -> step fv s (LReq c) = Some s' -> Inv s'.
+Proof. simple_step. Qed.
+Lemma step_LReleaseF k s s' : Inv s -> step fv s (LReleaseF k) = Some s' -> Inv s'.
+Proof. simple_step. Qed.
+Lemma step_LReleaseS k s s' : Inv s -> step fv s (LReleaseS k) = Some s' -> Inv s'.
+Proof. simple_step. Qed.
+Lemma step_LCancelNext k s s' : Inv s -> step fv s (LCancelNext k) = Some s' -> Inv s'.
+Proof. simple_step. Qed.
+Lemma step_LCancelParent s s' : Inv s -> step fv s LCancelParent = Some s' -> Inv s'.
+Proof. simple_step. destruct (g s) as [|[]]; auto. Qed.
+
+Lemma step_LCallNext j s s' : Inv s -> step fv s (LCallNext j) = Some s' -> Inv s'.
+Proof. simple_step. Qed.
+Lemma step_LRetNext r s s' : Inv s -> step fv s (LRetNext r) = Some s' -> Inv s'.
+Proof. simple_step. Qed.
+Lemma step_LCallClose s s' : Inv s -> step fv s LCallClose = Some s' -> Inv s'.
+Proof. simple_step. Qed.
+Lemma step_LRetClose s s' : Inv s -> step fv s LRetClose = Some s' -> Inv s'.
+Proof. simple_step. Qed.
+Lemma step_TDReady s s' : Inv s -> step fv s TDReady = Some s' -> Inv s'.
+Proof. simple_step. Qed.
+Lemma step_TCloseIn s s' : Inv s -> step fv s TCloseIn = Some s' -> Inv s'.
+Proof. simple_step. Qed.
+
+Lemma step_TNextCtx s s' : Inv s -> step fv s TNextCtx = Some s' -> Inv s'.
+Proof. simple_step. Qed.
+Lemma step_TCClosed s s' : Inv s -> step fv s TCClosed = Some s' -> Inv s'.
+Proof. simple_step. Qed.
+Lemma step_TParentProp s s' : Inv s -> step fv s TParentProp = Some s' -> Inv s'.
+Proof. simple_step. Qed.
+Lemma step_TCloseCancel s s' : Inv s -> step fv s TCloseCancel = Some s' -> Inv s'.
+Proof. simple_step. destruct (g s) as [|[]]; simpl; auto. Qed.
+
+Lemma step_TDCtx s s' : Inv s -> step fv s TDCtx = Some s' -> Inv s'.
+Proof.
+  intros HI Hs. pose proof (i_g _ HI) as Hg0. pose proof (i_egdone _ HI) as He0.
+  unfold step in Hs. destruct (disp s) eqn:Ed; try discriminate Hs;
+  (destruct (g s) eqn:Eg; try discriminate Hs; injection Hs as Hs; subst;
+   assert (Hnd : egdone s <> S (length (ws s))) by (apply not_done_disp; [rewrite Ed; exact He0 | rewrite Ed; reflexivity]);
+   pose proof (ctx_carrier s c Hg0 Eg Hnd) as Hc;
+   start HI; pre; rw; constructor; pre; try easy1; try mono).
+Qed.
+Lemma step_TPut s s' : Inv s -> step fv s TPut = Some s' -> Inv s'.
+Proof. simple_step. Qed.
+Lemma all_done s :
+  egdone s = wsum (fun x => b2n (wfin x)) (ws s) + b2n (ddone (disp s)) ->
+  egdone s = S (length (ws s)) ->
+  (forall w x, nth_error (ws s) w = Some x -> x = TDone) /\ disp s = SDone.
+Proof.
+  intros H E. pose proof (wsum_le_length (fun x => b2n (wfin x)) (ws s) wfin_le1) as L.
+  assert (Hd : ddone (disp s) = true) by (destruct (ddone (disp s)); [reflexivity | simpl in H; lia]).
+  rewrite Hd in H. simpl in H. split.
+  - intros w x Hx. pose proof (wsum_full (fun x => b2n (wfin x)) (ws s) wfin_le1 ltac:(lia) w x Hx) as F.
+    cbv beta in F. destruct x; simpl in F; try discriminate F. reflexivity.
+  - destruct (disp s); try discriminate Hd. reflexivity.
+Qed.
+
+Lemma hcnt_nil k : hcnt k [] = 0.
+Proof. reflexivity. Qed.
+
+Lemma step_TWait s s' : Inv s -> step fv s TWait = Some s' -> Inv s'.
+Proof.
+  intros HI Hs. unfold step in Hs. destruct (cons s) eqn:Ec; try discriminate Hs.
+  destruct (egdone s =? S (length (ws s))) eqn:Ee; try discriminate Hs. apply Nat.eqb_eq in Ee.
+  injection Hs as Hs; subst s'.
+  destruct (all_done s (i_egdone _ HI) Ee) as [Hall Hsd].
+  assert (Hend' : eg_err s = None -> next s = length (src s)).
+  { intros Hn. start HI. unfold d_normal in Hdnormal. rewrite Hsd in Hdnormal. destruct (Hdnormal Hn) as [Hp Hnd].
+    destruct (Hkwait Ec) as [_ Hcb].
+    assert (Hw0 : forall j, wcnt j (ws s) = 0).
+    { intros j. apply wsum_zero. intros w x Hx. rewrite (Hall w x Hx). reflexivity. }
+    assert (Hne : nerrw (ws s) = 0).
+    { apply wsum_zero. intros w x Hx. rewrite (Hall w x Hx). reflexivity. }
+    pose proof (Hcov Hn Hne) as Hc. unfold cnt, inrange in Hc, Hcnt. rewrite Hcb in Hc.
+    destruct (Nat.eq_dec (next s) (ndisp s)) as [|Hneq]; [congruence|]. exfalso.
+    assert (Hm : hmatch (heap s) (next s) = true).
+    { apply head_is_next; [exact Hsorted | |].
+      - intros j Hj. specialize (Hc j). rewrite Hw0, hcnt_nil in Hc. bdestr.
+      - specialize (Hc (next s)). rewrite Hw0, hcnt_nil in Hc. bdestr. }
+    rewrite Hnomatch in Hm by (rewrite Ec; reflexivity). discriminate Hm. }
+  start HI; pre; rw. constructor; pre; try easy1; try mono.
+  - destruct (g s) as [|[]]; simpl; auto.
+  - destruct (eg_err s); [discriminate | intros _; auto].
+  - intros e He. destruct (eg_err s) eqn:Eg; [|discriminate He]. inversion He; subst. apply Hegerr. reflexivity.
+Qed.
+
+Lemma step_TCloseWait s s' : Inv s -> step fv s TCloseWait = Some s' -> Inv s'.
+Proof.
+  simple_step. destruct (g s) as [|[]]; simpl; auto.
+Qed.
+
+Lemma record_cases r ee x ee' x' :
+  record r ee x = (ee', x') ->
+  (ee' = ee /\ x' = x /\ (r = None \/ ee <> None)) \/
+  (exists a, r = Some a /\ ee = None /\ ee' = Some a /\ x' = cancelG x ByError).
+Proof.
+  unfold record. destruct r as [a|]; destruct ee as [b|]; intros H; inversion H; subst.
+  - left. repeat split; auto. right; discriminate.
+  - right. exists a. auto.
+  - left. auto.
+  - left. auto.
+Qed.
+
+Lemma step_TDRet s s' : Inv s -> step fv s TDRet = Some s' -> Inv s'.
+Proof.
+  intros HI Hs. pose proof (i_egdone _ HI) as He0.
+  unfold step in Hs. destruct (disp s) eqn:Ed; try discriminate Hs.
+  assert (Hnd : egdone s <> S (length (ws s))) by (apply not_done_disp; [rewrite Ed; exact He0 | rewrite Ed; reflexivity]).
+  destruct (record r (eg_err s) (g s)) as [ee' x'] eqn:Er. injection Hs as Hs; subst s'.
+  destruct (record_cases _ _ _ _ _ Er) as [(-> & -> & Hr)|(a & -> & Hn & -> & ->)].
+  - start HI; pre; rw. constructor; pre; try easy1; try mono.
+    + destruct (g s) as [|[]]; simpl; auto. congruence.
+    + intros Hn. destruct Hr as [->|Hr]; [exact Hdnormal | congruence].
+    + intros Hk. specialize (Hkclosed Hk). congruence.
+  - start HI; pre; rw. rewrite Hn in *. constructor; pre; try easy1; try mono.
+    + destruct (g s) as [|[]]; simpl; auto; congruence.
+    + intros e He. inversion He; subst. apply carrier_valid_first. apply Hdcarry. reflexivity.
+    + intros Hk. specialize (Hkclosed Hk). congruence.
+Qed.
+
+Lemma hcnt_cons k n v t : hcnt k ((n, v) :: t) = b2n (Nat.eqb n k) + hcnt k t.
+Proof. reflexivity. Qed.
+
+Lemma step_TLoop s s' : Inv s -> step fv s TLoop = Some s' -> Inv s'.
+Proof.
+  intros HI Hs. unfold step in Hs. destruct (cons s) eqn:Ec; try discriminate Hs.
+  destruct (heap s) as [|[k v] t] eqn:Eh.
+  - injection Hs as Hs; subst s'. start HI; pre; rw. constructor; pre; try easy1; try mono.
+    intros _. rewrite Eh. reflexivity.
+  - destruct (k =? next s) eqn:Ek.
+    + apply Nat.eqb_eq in Ek. subst k. injection Hs as Hs; subst s'. start HI; pre; rw.
+      rewrite Eh in *.
+      assert (Hlt : next s < ndisp s).
+      { specialize (Hcnt (next s)). rewrite hcnt_cons, Nat.eqb_refl in Hcnt. bdestr. }
+      assert (Hsrc : next s < length (src s)).
+      { destruct (disp s); try destruct Hdok as (? & ? & ?); try destruct Hdok as [[? ?] [? ?]]; lia. }
+      constructor; pre; try easy1; try mono.
+      * intros k. specialize (Hcnt k). rewrite hcnt_cons in Hcnt. bdestr.
+      * intros He Hn k. specialize (Hcov He Hn k). rewrite hcnt_cons in Hcov. bdestr.
+      * inversion Hhval; assumption.
+      * inversion Hsorted; assumption.
+      * inversion Hhval as [|a b Hv Ht]; subst. simpl in Hv. subst v.
+        rewrite (firstn_S_nth (src s) (next s) 0%Z) by lia. rewrite map_app. simpl. rewrite Hyield. reflexivity.
+      * intros k Hk. destruct (Hfailed k Hk) as (H1 & H2 & H3). rewrite hcnt_cons in H3. bdestr.
+    + injection Hs as Hs; subst s'. start HI; pre; rw. constructor; pre; try easy1; try mono.
+      intros _. rewrite Eh. simpl. exact Ek.
+Qed.
+
+Lemma step_TRecv s s' : Inv s -> step fv s TRecv = Some s' -> Inv s'.
+Proof.
+  intros HI Hs. unfold step in Hs. destruct (cons s) eqn:Ec; try discriminate Hs.
+  destruct (cbuf s) as [|[n v] t] eqn:Eb; try discriminate Hs.
+  injection Hs as Hs; subst s'. start HI; pre; rw. rewrite Eb in *.
+  constructor; pre; try easy1; try mono.
+  - intros k. specialize (Hcnt k). rewrite hcnt_cons in Hcnt. rewrite hcnt_push. cbn [fst]. lia.
+  - intros He Hn k. specialize (Hcov He Hn k). rewrite hcnt_cons in Hcov. rewrite hcnt_push. cbn [fst]. lia.
+  - inversion Hcval; assumption.
+  - apply hpush_Forall; [inversion Hcval; assumption | exact Hhval].
+  - apply hpush_sorted. exact Hsorted.
+  - intros k Hk. destruct (Hfailed k Hk) as (H1 & H2 & H3). rewrite hcnt_cons in H3. rewrite hcnt_push. cbn [fst].
+    repeat split; lia.
+Qed.
+
+(* the standard obligations after worker w moved from y to x *)
+Ltac wupd Hy x :=
+  pose proof (fun k => wcnt_upd k _ _ x _ Hy) as Ucnt;
+  pose proof (wsum_upd (fun q => b2n (is_some (wcarry q))) _ _ x _ Hy) as Uerr;
+  pose proof (wsum_upd (fun q => b2n (wexited q)) _ _ x _ Hy) as Uex;
+  pose proof (wsum_upd (fun q => b2n (wfin q)) _ _ x _ Hy) as Ufin;
+  unfold holdsb in Ucnt; cbn [held wcarry is_some wexited wfin b2n] in Ucnt, Uerr, Uex, Ufin.
+Ltac wfields Hy :=
+  match goal with
+  | Ucnt : forall k, wcnt k (upd _ _ _) + _ = _, Hcnt : forall k, _ <= b2n _ |- forall k, _ <= b2n _ =>
+      let k0 := fresh "k0" in intros k0; specialize (Ucnt k0); specialize (Hcnt k0); solve [bdestr]
+  | Ucnt : forall k, wcnt k (upd _ _ _) + _ = _, Hcov : _ -> nerrw _ = 0 -> _ |- _ -> nerrw _ = 0 -> _ =>
+      let He := fresh "He" in let Hn := fresh "Hn" in let k0 := fresh "k0" in
+      intros He Hn k0; unfold nerrw in *; specialize (Ucnt k0);
+      first [ (exfalso; lia)
+            | (let Hz := fresh "Hz" in
+               match type of Hy with nth_error ?l _ = _ =>
+                 assert (Hz : wsum (fun q => b2n (is_some (wcarry q))) l = 0) by lia end;
+               specialize (Hcov He Hz k0); solve [bdestr]) ]
+  | Ucnt : forall k, wcnt k (upd _ _ _) + _ = _, Hfailed : forall k, In k _ -> _ |- forall k, In k _ -> _ =>
+      let k0 := fresh "k0" in let Hk := fresh "Hk" in
+      intros k0 Hk; destruct (Hfailed k0 Hk) as (? & ? & ?); specialize (Ucnt k0); repeat split; solve [bdestr]
+  | |- _ = wsum _ (upd _ _ _) => lia
+  | |- _ = wsum _ (upd _ _ _) + _ => lia
+  | |- forall w k v, nth_error (upd _ _ _) w = Some (TSend k v) -> _ =>
+      wq Hy; solve [ eauto | congruence ]
+  | |- forall w x, nth_error (upd _ _ _) w = Some x -> wexit_ok _ _ x =>
+      wq Hy; solve [ eauto | (simpl; auto) | (eapply wexit_ok_mono; [eauto | auto ..]) ]
+  | |- forall w x e, nth_error (upd _ _ _) w = Some x -> wcarry x = Some e -> _ =>
+      wq Hy; solve [ eauto | (intros; discriminate) | (intros; eapply carrier_ok_mono; [eauto | auto with datatypes ..]) ]
+  end.
+
+Lemma step_LFEnter w k s s' : Inv s -> step fv s (LFEnter w k) = Some s' -> Inv s'.
+Proof.
+  intros HI Hs. unfold step in Hs. unfold getw in Hs. destruct (nth_error (ws s) w) as [y|] eqn:Ey; try discriminate Hs.
+  destruct y; try discriminate Hs. destruct (k =? k0) eqn:Ek; try discriminate Hs. apply Nat.eqb_eq in Ek; subst k0.
+  injection Hs as Hs; subst s'. start HI; pre; rw. wupd Ey (TInF k).
+  constructor; pre; rewrite ?upd_length; try easy1; try mono; try wfields Ey.
+Qed.
+
+Ltac open_w Hs Ey :=
+  unfold step in Hs; unfold getw in Hs;
+  match type of Hs with context [nth_error (ws ?s) ?w] =>
+    destruct (nth_error (ws s) w) as [y|] eqn:Ey; try discriminate Hs; destruct y; try discriminate Hs end.
+
+Lemma step_TInClosed w s s' : Inv s -> step fv s (TInClosed w) = Some s' -> Inv s'.
+Proof.
+  intros HI Hs. open_w Hs Ey. destruct (in_closed s) eqn:Eic; try discriminate Hs.
+  injection Hs as Hs; subst s'. start HI; pre; rw. wupd Ey (TExit None).
+  constructor; pre; rewrite ?upd_length; try easy1; try mono; try wfields Ey.
+Qed.
+
+Lemma step_TDispatch w s s' : Inv s -> step fv s (TDispatch w) = Some s' -> Inv s'.
+Proof.
+  intros HI Hs. unfold step in Hs. destruct (disp s) eqn:Ed; try discriminate Hs.
+  unfold getw in Hs. destruct (nth_error (ws s) w) as [y|] eqn:Ey; try discriminate Hs. destruct y; try discriminate Hs.
+  injection Hs as Hs; subst s'. start HI; pre; rw. wupd Ey (THas k). destruct Hdok as (Hd1 & Hd2 & Hd3). subst k.
+  constructor; pre; rewrite ?upd_length; try easy1; try mono; try wfields Ey.
+Qed.
+
+Lemma hcnt_app k a b : hcnt k (a ++ b) = hcnt k a + hcnt k b.
+Proof. unfold hcnt. induction a as [|x t IH]; simpl; [reflexivity | rewrite IH; lia]. Qed.
+
+Lemma step_TWSend w s s' : Inv s -> step fv s (TWSend w) = Some s' -> Inv s'.
+Proof.
+  intros HI Hs. open_w Hs Ey. destruct (length (cbuf s) <? buf s) eqn:El; try discriminate Hs.
+  injection Hs as Hs; subst s'. start HI; pre; rw. wupd Ey TIdle.
+  assert (Hc1 : forall j, hcnt j (cbuf s ++ [(k, v)]) = hcnt j (cbuf s) + b2n (k =? j)).
+  { intros j. rewrite hcnt_app, hcnt_cons, hcnt_nil. lia. }
+  assert (Hopen : c_closed s = false).
+  { rewrite Hcclosed. apply Nat.eqb_neq. rewrite Hndone.
+    pose proof (wsum_lt_length (fun q => b2n (wexited q)) (ws s) w _ wexited_le1 Ey eq_refl). lia. }
+  constructor; pre; rewrite ?upd_length; try easy1; try mono; try wfields Ey.
+  - intros k0. rewrite Hc1. specialize (Ucnt k0). specialize (Hcnt k0). bdestr.
+  - intros He Hn k0. rewrite Hc1. unfold nerrw in *. specialize (Ucnt k0).
+    assert (Hz : wsum (fun q => b2n (is_some (wcarry q))) (ws s) = 0) by lia.
+    specialize (Hcov He Hz k0). bdestr.
+  - apply Forall_app. split; [exact Hcval|]. constructor; [|constructor]. simpl. eapply Hwval; eauto.
+  - intros Hk. destruct (Hkwait Hk) as [Hcc _]. congruence.
+  - intros k0 Hk. destruct (Hfailed k0 Hk) as (H1 & H2 & H3). rewrite Hc1. specialize (Ucnt k0). repeat split; bdestr.
+Qed.
+
+Lemma step_TWCtx w s s' : Inv s -> step fv s (TWCtx w) = Some s' -> Inv s'.
+Proof.
+  intros HI Hs. pose proof (i_g _ HI) as Hg0. pose proof (i_egdone _ HI) as He0.
+  open_w Hs Ey. destruct (g s) eqn:Eg; try discriminate Hs.
+  injection Hs as Hs; subst s'.
+  assert (Hnd : egdone s <> S (length (ws s))) by (eapply not_done_w; [exact He0 | exact Ey | reflexivity]).
+  pose proof (ctx_carrier s c Hg0 Eg Hnd) as Hc.
+  start HI; pre; rw. wupd Ey (TExit (Some (ECtx c))).
+  constructor; pre; rewrite ?upd_length; try easy1; try mono; try wfields Ey.
+  wq Ey; [intros He; cbn [wcarry] in He; inversion He; subst; exact Hc | eauto].
+Qed.
+
+Lemma step_TWExit w s s' : Inv s -> step fv s (TWExit w) = Some s' -> Inv s'.
+Proof.
+  intros HI Hs. open_w Hs Ey.
+  injection Hs as Hs; subst s'. start HI; pre; rw. wupd Ey (TRet r).
+  assert (Hlt : ndone s < length (ws s)).
+  { rewrite Hndone. apply (wsum_lt_length (fun q => b2n (wexited q)) (ws s) w _ wexited_le1 Ey eq_refl). }
+  constructor; pre; rewrite ?upd_length; try easy1; try mono; try wfields Ey.
+  - wq Ey; [|eauto]. pose proof (Hwexit w _ Ey) as Hx. destruct r; simpl in *; auto.
+  - rewrite Hcclosed. replace (ndone s =? length (ws s)) with false by (symmetry; apply Nat.eqb_neq; lia). reflexivity.
+  - intros Hk. destruct (Hkwait Hk) as [Hcc _]. rewrite Hcclosed in Hcc. apply Nat.eqb_eq in Hcc. lia.
+Qed.
+
+Lemma step_TWRet w s s' : Inv s -> step fv s (TWRet w) = Some s' -> Inv s'.
+Proof.
+  intros HI Hs. pose proof (i_egdone _ HI) as He0. open_w Hs Ey.
+  assert (Hnd : egdone s <> S (length (ws s))) by (eapply not_done_w; [exact He0 | exact Ey | reflexivity]).
+  destruct (record r (eg_err s) (g s)) as [ee' x'] eqn:Er. injection Hs as Hs; subst s'.
+  destruct (record_cases _ _ _ _ _ Er) as [(-> & -> & Hr)|(a & -> & Hn & -> & ->)].
+  - start HI; pre; rw. wupd Ey TDone.
+    constructor; pre; rewrite ?upd_length; try easy1; try mono; try wfields Ey.
+    + intros He Hn k. destruct Hr as [->|Hr]; [|congruence]. cbn [is_some b2n] in Uerr. unfold nerrw in *.
+      assert (Hz : wsum (fun q => b2n (is_some (wcarry q))) (ws s) = 0) by lia.
+      specialize (Hcov He Hz k). specialize (Ucnt k). lia.
+    + wq Ey; [|eauto]. pose proof (Hwexit w _ Ey) as Hx. simpl in *. destruct r; [|auto].
+      destruct Hr as [Hr|Hr]; [discriminate | auto].
+    + destruct (g s) as [|[]]; simpl; auto. congruence.
+    + intros Hk. specialize (Hkclosed Hk). congruence.
+  - start HI; pre; rw. rewrite Hn in *. wupd Ey TDone.
+    constructor; pre; rewrite ?upd_length; try easy1; try mono; try wfields Ey.
+    + wq Ey; [simpl; right; discriminate|]. eapply wexit_ok_mono; [eauto | auto | intros; discriminate].
+    + destruct (g s) as [|[]]; simpl; auto; congruence.
+    + intros e He. inversion He; subst. apply carrier_valid_first. eapply Hwcarry; [exact Ey | reflexivity].
+    + destruct (disp s) as [| | | |[]|[]|[]|[]|]; auto; intros; discriminate.
+    + intros Hk. specialize (Hkclosed Hk). congruence.
+Qed.
+
+Lemma step_LFExit w k o s s' : Inv s -> step fv s (LFExit w k o) = Some s' -> Inv s'.
+Proof.
+  intros HI Hs. pose proof (i_g _ HI) as Hg0. pose proof (i_egdone _ HI) as He0.
+  unfold step in Hs; unfold getw in Hs.
+  destruct (nth_error (ws s) w) as [y|] eqn:Ey; try discriminate Hs; destruct y; try discriminate Hs.
+  destruct (k =? k0) eqn:Ek; try discriminate Hs. apply Nat.eqb_eq in Ek; subst k0.
+  assert (Hnd : egdone s <> S (length (ws s))) by (eapply not_done_w; [exact He0 | exact Ey | reflexivity]).
+  destruct o.
+  - (* FoOk *)
+    dstep Hs. injection Hs as Hs; subst s'. start HI; pre; rw. wupd Ey (TSend k (fv (nth k (src s) 0%Z))).
+    constructor; pre; rewrite ?upd_length; try easy1; try mono; try wfields Ey.
+  - (* FoErr *)
+    dstep Hs. injection Hs as Hs; subst s'. bools. start HI; pre; rw. wupd Ey (TExit (Some (EF k))).
+    constructor; pre; rewrite ?upd_length; try easy1; try mono; try wfields Ey.
+    + wq Ey.
+      * intros He. cbn [wcarry] in He. inversion He; subst. simpl. split; [left; reflexivity | assumption].
+      * intros He. eapply carrier_ok_mono; [eapply Hwcarry; eauto | auto with datatypes ..].
+    + intros k0 [->|Hk].
+      * specialize (Ucnt k0). specialize (Hcnt k0). rewrite Nat.eqb_refl in Ucnt. repeat split; bdestr.
+      * destruct (Hfailed k0 Hk) as (H1 & H2 & H3). specialize (Ucnt k0). repeat split; bdestr.
+  - (* FoCtx *)
+    destruct (g s) eqn:Eg; try discriminate Hs. dstep Hs. injection Hs as Hs; subst s'.
+    pose proof (ctx_carrier s c Hg0 Eg Hnd) as Hc.
+    start HI; pre; rw. wupd Ey (TExit (Some (ECtx c))).
+    constructor; pre; rewrite ?upd_length; try easy1; try mono; try wfields Ey.
+    + wq Ey.
+      * intros He. cbn [wcarry] in He. inversion He; subst.
+        eapply carrier_ok_mono; [exact Hc | auto with datatypes ..].
+      * intros He. eapply carrier_ok_mono; [eapply Hwcarry; eauto | auto with datatypes ..].
+    + intros k0 [->|Hk].
+      * specialize (Ucnt k0). specialize (Hcnt k0). rewrite Nat.eqb_refl in Ucnt. repeat split; bdestr.
+      * destruct (Hfailed k0 Hk) as (H1 & H2 & H3). specialize (Ucnt k0). repeat split; bdestr.
+Qed.
+
+Lemma inv_step s l s' : Inv s -> step fv s l = Some s' -> Inv s'.
+Proof.
+  intros HI Hs. destruct l.
+  - eapply step_LSrcEnter; eassumption.
+  - eapply step_LSrcExit; eassumption.
+  - eapply step_LSrcCloseEnter; eassumption.
+  - eapply step_LSrcCloseExit; eassumption.
+  - eapply step_LFEnter; eassumption.
+  - eapply step_LFExit; eassumption.
+  - eapply step_LCallNext; eassumption.
+  - eapply step_LRetNext; eassumption.
+  - eapply step_LCallClose; eassumption.
+  - eapply step_LRetClose; eassumption.
+  - eapply step_LReq; eassumption.
+  - eapply step_LReleaseF; eassumption.
+  - eapply step_LReleaseS; eassumption.
+  - eapply step_LCancelParent; eassumption.
+  - eapply step_LCancelNext; eassumption.
+  - discriminate Hs.
+  - eapply step_TDReady; eassumption.
+  - eapply step_TDCtx; eassumption.
+  - eapply step_TDispatch; eassumption.
+  - eapply step_TCloseIn; eassumption.
+  - eapply step_TDRet; eassumption.
+  - eapply step_TInClosed; eassumption.
+  - eapply step_TWSend; eassumption.
+  - eapply step_TWCtx; eassumption.
+  - eapply step_TWExit; eassumption.
+  - eapply step_TWRet; eassumption.
+  - eapply step_TLoop; eassumption.
+  - eapply step_TPut; eassumption.
+  - eapply step_TRecv; eassumption.
+  - eapply step_TCClosed; eassumption.
+  - eapply step_TNextCtx; eassumption.
+  - eapply step_TWait; eassumption.
+  - eapply step_TCloseCancel; eassumption.
+  - eapply step_TCloseWait; eassumption.
+  - eapply step_TParentProp; eassumption.
+Qed.
+
+Lemma qstep_cases s l s' :
+  qstep fv s l = Some s' -> (l = LQuiesce /\ s' = s) \/ step fv s l = Some s'.
+Proof.
+  destruct l; simpl; auto. destruct (quiescent fv s); [|discriminate]. intros H; inversion H; auto.
+Qed.
+
+Lemma inv_qstep s l s' : Inv s -> qstep fv s l = Some s' -> Inv s'.
+Proof.
+  intros HI Hq. destruct (qstep_cases _ _ _ Hq) as [[_ ->]|Hs]; [exact HI | eapply inv_step; eauto].
+Qed.
+
+Theorem reachable_inv c s :
+  (1 <= c_gomaxprocs c)%Z -> reachable (qstep fv) (init c) s -> Inv s.
+Proof. intros Hg. apply invariant_rule; [apply inv_init; exact Hg | exact inv_qstep]. Qed.
+
+(* the configuration never changes *)
+Definition Conf (c : cfg) (s : st) : Prop :=
+  src s = c_items c /\ ferr s = c_ferr c /\ serr s = c_serr c /\
+  buf s = Z.to_nat (norm_buf (norm_par (c_gomaxprocs c) (c_par c)) (c_bufsz c)) /\
+  length (ws s) = Z.to_nat (norm_par (c_gomaxprocs c) (c_par c)).
+
+Lemma conf_step c s l s' : Conf c s -> step fv s l = Some s' -> Conf c s'.
+Proof.
+  unfold Conf. intros HC Hs. unfold step in Hs.
+  destruct l; dstep Hs; try discriminate Hs; injection Hs as Hs; subst s';
+    cbn [src ferr serr buf ws set_disp set_w set_cons set_g set_harness]; rewrite ?upd_length; exact HC.
+Qed.
+
+Theorem reachable_conf c s : reachable (qstep fv) (init c) s -> Conf c s.
+Proof.
+  apply invariant_rule.
+  - unfold Conf, init; simpl. rewrite repeat_length. auto.
+  - intros s0 l s1 HC Hq. destruct (qstep_cases _ _ _ Hq) as [[_ ->]|Hs]; [exact HC | eapply conf_step; eauto].
+Qed.
+End Proofs.
+End MSP.
+
+(* ------------------------------------------------------------------ *)
+(* Part 4: MapStream — progress and the clauses of C14                 *)
+(* ------------------------------------------------------------------ *)
+Module MST.
+Import MS MSP.
+
+Section Thms.
+Variable fv : Z -> Z.
+
+Ltac start HI := destruct HI as [Hpar Hpull Hdok Htok Hnext Hcnt Hcov Hwval Hcval Hhval Hsorted Hyield Hincl Hwexit
+  Hndone Hcclosed Hegdone Hsrccl Hnomatch Hkwait Hg Hegerr Hwcarry Hdcarry Hfailed Hdnormal Hend Hreterr Hkclosed].
+Ltac bdestr :=
+  repeat match goal with
+         | |- context [Nat.eqb ?a ?b] => destruct (Nat.eqb_spec a b)
+         | H : context [Nat.eqb ?a ?b] |- _ => destruct (Nat.eqb_spec a b)
+         | |- context [Nat.leb ?a ?b] => destruct (Nat.leb_spec a b)
+         | H : context [Nat.leb ?a ?b] |- _ => destruct (Nat.leb_spec a b)
+         | |- context [Nat.ltb ?a ?b] => destruct (Nat.ltb_spec a b)
+         | H : context [Nat.ltb ?a ?b] |- _ => destruct (Nat.ltb_spec a b)
+         end; cbn [b2n andb orb negb] in *; try lia.
+
+Definition env_pending (s : st) : Prop :=
+  disp s = SInSrc \/ (exists r, disp s = SInClose r) \/ exists w k, nth_error (ws s) w = Some (TInF k).
+Definition progress (s : st) : Prop :=
+  (exists l s', is_lib l = true /\ step fv s l = Some s') \/ env_pending s.
+
+Ltac fire l := left; exists l; unfold step, getw.
+Ltac fired := eexists; split; reflexivity.
+
+Lemma ws_cases (l : list wpc) :
+  (forall w x, nth_error l w = Some x -> x = TIdle \/ x = TDone) \/
+  (exists w x, nth_error l w = Some x /\ x <> TIdle /\ x <> TDone).
+Proof.
+  induction l as [|h t IH].
+  - left. intros [|w] x H; discriminate H.
+  - destruct IH as [IH|(w & x & Hx & Hn)].
+    + destruct h; try (right; exists 0; eexists; simpl; split; [reflexivity | split; discriminate]).
+      * left. intros [|w] x H; simpl in H; [inversion H; auto | eapply IH; eauto].
+      * left. intros [|w] x H; simpl in H; [inversion H; auto | eapply IH; eauto].
+    + right. exists (S w), x. auto.
+Qed.
+
+Lemma ws_idle_or_alldone (l : list wpc) :
+  (forall w x, nth_error l w = Some x -> x = TIdle \/ x = TDone) ->
+  (exists w, nth_error l w = Some TIdle) \/ (forall w x, nth_error l w = Some x -> x = TDone).
+Proof.
+  induction l as [|h t IH]; intros H.
+  - right. intros [|w] x Hx; discriminate Hx.
+  - destruct (H 0 h eq_refl) as [->| ->].
+    + left. exists 0. reflexivity.
+    + destruct (IH (fun w x Hx => H (S w) x Hx)) as [[w Hw]|Hall].
+      * left. exists (S w). exact Hw.
+      * right. intros [|w] x Hx; simpl in Hx; [inversion Hx; reflexivity | eapply Hall; eauto].
+Qed.
+
+Lemma dpc_eq_done (d : dpc) : d = SDone \/ d <> SDone.
+Proof. destruct d; auto; right; discriminate. Qed.
+
+(* a worker that is neither idle nor finished can move, unless it waits for room in [c] *)
+Lemma worker_progress s w x :
+  nth_error (ws s) w = Some x -> x <> TIdle -> x <> TDone ->
+  progress s \/ (exists k v, x = TSend k v /\ g s = GLive /\ buf s <= length (cbuf s)).
+Proof.
+  intros Hx Hn1 Hn2. destruct x; try congruence.
+  - left. fire (LFEnter w k). rewrite Hx, Nat.eqb_refl. fired.
+  - left. right. right. right. eauto.
+  - destruct (length (cbuf s) <? buf s) eqn:El.
+    + left. fire (TWSend w). rewrite Hx, El. fired.
+    + destruct (g s) eqn:Eg.
+      * right. apply Nat.ltb_ge in El. eauto.
+      * left. fire (TWCtx w). rewrite Hx, Eg. fired.
+  - left. fire (TWExit w). rewrite Hx. fired.
+  - left. fire (TWRet w). rewrite Hx. destruct (record r (eg_err s) (g s)). fired.
+Qed.
+
+(* the dispatcher can move unless it waits for a token or for an idle worker *)
+Lemma disp_progress s :
+  disp s <> SDone ->
+  progress s \/ (exists k, disp s = SWait k /\ tokens s = 0 /\ g s = GLive)
+  \/ (exists k, disp s = SSend k /\ g s = GLive /\ forall w, nth_error (ws s) w <> Some TIdle).
+Proof.
+  intros Hd. destruct (disp s) eqn:Ed; try congruence.
+  - left. fire LSrcEnter. rewrite Ed. fired.
+  - left. right. left. exact Ed.
+  - destruct (tokens s) eqn:Et.
+    + destruct (g s) eqn:Eg; [right; left; eauto|]. left. fire TDCtx. rewrite Ed, Eg. fired.
+    + left. fire TDReady. rewrite Ed, Et. fired.
+  - destruct (g s) eqn:Eg.
+    + assert (Hdec : (exists w, nth_error (ws s) w = Some TIdle) \/ forall w, nth_error (ws s) w <> Some TIdle).
+      { clear. induction (ws s) as [|h t IH].
+        - right. intros [|w]; discriminate.
+        - destruct h; try (destruct IH as [[w Hw]|Hn]; [left; exists (S w); exact Hw |
+                             right; intros [|w]; simpl; [discriminate | apply Hn]]).
+          left. exists 0. reflexivity. }
+      destruct Hdec as [[w Hw]|Hn]; [|right; right; eauto].
+      left. fire (TDispatch w). rewrite Ed, Hw. fired.
+    + left. fire TDCtx. rewrite Ed, Eg. fired.
+  - left. fire TCloseIn. rewrite Ed. fired.
+  - left. fire LSrcCloseEnter. rewrite Ed. fired.
+  - left. right. right. left. eauto.
+  - left. fire TDRet. rewrite Ed. destruct (record r (eg_err s) (g s)). fired.
+Qed.
+
+(* a second, tiny invariant: once Close has cancelled, [close_called] is set *)
+Definition Inv2 (s : st) : Prop :=
+  (cons s = KClose2 \/ cons s = KCloseRet \/ cons s = KClosed) -> close_called s = true.
+
+Lemma inv2_step s l s' : Inv2 s -> step fv s l = Some s' -> Inv2 s'.
+Proof.
+  unfold Inv2. intros HI Hs. unfold step in Hs.
+  destruct l; dstep Hs; try discriminate Hs; injection Hs as Hs; subst s';
+    cbn [cons close_called set_disp set_w set_cons set_g set_harness]; try exact HI;
+    try (intros [X|[X|X]]; discriminate X); try (intros _; reflexivity);
+    try (intros _; apply HI; auto; fail).
+Qed.
+
+Theorem reachable_inv2 c s : reachable (qstep fv) (init c) s -> Inv2 s.
+Proof.
+  apply invariant_rule.
+  - unfold Inv2, init; simpl. intros [X|[X|X]]; discriminate X.
+  - intros s0 l s1 HI Hq. destruct (qstep_cases fv _ _ _ Hq) as [[_ ->]|Hs]; [exact HI | eapply inv2_step; eauto].
+Qed.
+
+Definition in_call (s : st) : Prop := cons s <> KIdle /\ cons s <> KClosed.
+
+Lemma res_eqb_refl r : res_eqb r r = true.
+Proof.
+  destruct r as [v| |e|]; simpl; auto; [apply Z.eqb_refl|]. destruct e as [k| |c]; simpl; auto; [apply Nat.eqb_refl|].
+  destruct c; reflexivity.
+Qed.
+
+Lemma all_workers_done_closed s :
+  Inv fv s -> (forall w x, nth_error (ws s) w = Some x -> x = TDone) -> c_closed s = true.
+Proof.
+  intros HI Hall. start HI. rewrite Hcclosed. apply Nat.eqb_eq. rewrite Hndone.
+  apply wsum_all. intros w x Hx. rewrite (Hall w x Hx). reflexivity.
+Qed.
+
+Lemma progress_inv s : Inv fv s -> Inv2 s -> in_call s -> progress s.
+Proof.
+  intros HI HI2 [Hc1 Hc2]. pose proof HI as HI0. start HI.
+  destruct (cons s) eqn:Ec; try congruence.
+  - (* KLoop *) fire TLoop. rewrite Ec. destruct (heap s) as [|[k v] t]; [fired|]. destruct (k =? next s); fired.
+  - (* KPut *) fire TPut. rewrite Ec.
+    assert (Hlt : (tokens s <? buf s) = true).
+    { apply Nat.ltb_lt. cbn [kput] in Htok. unfold d_ok in Hdok.
+      destruct (disp s); try destruct Hdok as (? & ? & ?); try destruct Hdok as [[? ?] [? ?]]; lia. }
+    rewrite Hlt. fired.
+  - (* KSel *)
+    destruct (nthb (nctx s) j) eqn:En.
+    { fire TNextCtx. rewrite Ec, En. fired. }
+    destruct (cbuf s) as [|x t] eqn:Eb.
+    2:{ fire TRecv. rewrite Ec, Eb. fired. }
+    destruct (c_closed s) eqn:Ecc.
+    { fire TCClosed. rewrite Ec, Eb, Ecc. fired. }
+    destruct (ws_cases (ws s)) as [Hall|(w & x & Hx & Hn1 & Hn2)].
+    2:{ destruct (worker_progress s w x Hx Hn1 Hn2) as [P|(k & v & _ & _ & Hfull)]; [exact P|].
+        rewrite Eb in Hfull. simpl in Hfull. lia. }
+    destruct (ws_idle_or_alldone _ Hall) as [[w Hw]|Hd].
+    2:{ rewrite (all_workers_done_closed s HI0 Hd) in Ecc. discriminate. }
+    destruct (dpc_eq_done (disp s)) as [Hsd|Hsd].
+    { fire (TInClosed w). rewrite Hw, Hincl, Hsd. simpl. fired. }
+    destruct (disp_progress s Hsd) as [P|[(k & Ed & Et & Eg)|(k & Ed & Eg & Hni)]]; [exact P | | exfalso; eapply Hni; eauto].
+    exfalso. unfold d_ok, g_ok in *. rewrite Ed in Hdok. rewrite Eg in Hg. destruct Hdok as (Hd1 & Hd2 & Hd3).
+    destruct Hg as [Hee _]. cbn [kput] in Htok.
+    assert (Hw0 : forall i, wcnt i (ws s) = 0).
+    { intros i. apply wsum_zero. intros w' y Hy. destruct (Hall w' y Hy) as [-> | ->]; reflexivity. }
+    assert (Hne : nerrw (ws s) = 0).
+    { apply wsum_zero. intros w' y Hy. destruct (Hall w' y Hy) as [-> | ->]; reflexivity. }
+    pose proof (Hcov Hee Hne) as Hc. unfold cnt, inrange in Hc. rewrite Eb in Hc.
+    assert (Hm : hmatch (heap s) (next s) = true).
+    { apply head_is_next; [exact Hsorted | |].
+      - intros i Hi. specialize (Hc i). rewrite Hw0, hcnt_nil in Hc. bdestr.
+      - specialize (Hc (next s)). rewrite Hw0, hcnt_nil in Hc. bdestr. }
+    rewrite Hnomatch in Hm by reflexivity. discriminate Hm.
+  - (* KWait *)
+    destruct (Hkwait eq_refl) as [Hcc Hcb].
+    destruct (egdone s =? S (length (ws s))) eqn:Ee.
+    { fire TWait. rewrite Ec, Ee. fired. }
+    destruct (ws_cases (ws s)) as [Hall|(w & x & Hx & Hn1 & Hn2)].
+    2:{ destruct (worker_progress s w x Hx Hn1 Hn2) as [P|(k & v & _ & _ & Hfull)]; [exact P|].
+        rewrite Hcb in Hfull. simpl in Hfull. lia. }
+    assert (Hd : forall w x, nth_error (ws s) w = Some x -> x = TDone).
+    { destruct (ws_idle_or_alldone _ Hall) as [[w Hw]|Hd]; [exfalso | exact Hd].
+      rewrite Hcclosed in Hcc. apply Nat.eqb_eq in Hcc. rewrite Hndone in Hcc.
+      pose proof (wsum_lt_length (fun q => b2n (wexited q)) (ws s) w _ wexited_le1 Hw eq_refl). lia. }
+    destruct (dpc_eq_done (disp s)) as [Hsd|Hsd].
+    { exfalso. apply Nat.eqb_neq in Ee. apply Ee. rewrite Hegdone, Hsd. simpl.
+      rewrite (wsum_all (fun q => b2n (wfin q)) (ws s)); [lia|]. intros w x Hx. rewrite (Hd w x Hx). reflexivity. }
+    assert (Hstuck : forall d, g s = GLive -> disp s = d -> dpast d = false -> False).
+    { intros d Eg Ed Hp. unfold g_ok in Hg. rewrite Eg in Hg. destruct Hg as [Hee _].
+      destruct (ws s) as [|x0 tl] eqn:Ews; [simpl in Hpar; lia|].
+      pose proof (Hwexit 0 x0 eq_refl) as Hx0. rewrite (Hd 0 x0 eq_refl) in Hx0. simpl in Hx0.
+      destruct Hx0 as [Hic|Hne]; [|congruence]. rewrite Hincl, Ed, Hp in Hic. discriminate Hic. }
+    destruct (disp_progress s Hsd) as [P|[(k & Ed & _ & Eg)|(k & Ed & Eg & _)]]; [exact P | |];
+      exfalso; eapply Hstuck; eauto.
+  - (* KRet *) fire (LRetNext r). rewrite Ec, res_eqb_refl. fired.
+  - (* KClose1 *) fire TCloseCancel. rewrite Ec. fired.
+  - (* KClose2 *)
+    assert (Hgd : g s <> GLive).
+    { intros Eg. unfold g_ok in Hg. rewrite Eg in Hg. destruct Hg as [_ Hcc]. rewrite HI2 in Hcc by auto. discriminate. }
+    destruct (egdone s =? S (length (ws s))) eqn:Ee.
+    { fire TCloseWait. rewrite Ec, Ee. fired. }
+    destruct (ws_cases (ws s)) as [Hall|(w & x & Hx & Hn1 & Hn2)].
+    2:{ destruct (worker_progress s w x Hx Hn1 Hn2) as [P|(k & v & _ & Eg & _)]; [exact P | congruence]. }
+    destruct (dpc_eq_done (disp s)) as [Hsd|Hsd].
+    { destruct (ws_idle_or_alldone _ Hall) as [[w Hw]|Hd].
+      - fire (TInClosed w). rewrite Hw, Hincl, Hsd. simpl. fired.
+      - exfalso. apply Nat.eqb_neq in Ee. apply Ee. rewrite Hegdone, Hsd. simpl.
+        rewrite (wsum_all (fun q => b2n (wfin q)) (ws s)); [lia|]. intros w x Hx. rewrite (Hd w x Hx). reflexivity. }
+    destruct (disp_progress s Hsd) as [P|[(k & _ & _ & Eg)|(k & _ & Eg & _)]]; [exact P | congruence | congruence].
+  - (* KCloseRet *) fire LRetClose. rewrite Ec. fired.
+Qed.
+
+(* ---- the clauses of C14 for MapStream ---- *)
+Theorem in_order_exactly_once c s :
+  (1 <= c_gomaxprocs c)%Z -> reachable (qstep fv) (init c) s ->
+  yielded s = map fv (firstn (next s) (c_items c)) /\ next s <= length (c_items c) /\
+  (cons s = KRet REnd -> yielded s = map fv (c_items c)).
+Proof.
+  intros Hgm Hr. pose proof (reachable_inv fv _ _ Hgm Hr) as HI.
+  destruct (reachable_conf fv _ _ Hr) as (Hsrc & _). start HI. rewrite Hsrc in *.
+  split; [exact Hyield|]. split.
+  - unfold d_ok in Hdok. destruct (disp s); try destruct Hdok as (? & ? & ?); try destruct Hdok as [[? ?] [? ?]]; lia.
+  - intros Hc. rewrite Hyield, (Hend Hc). rewrite firstn_all. reflexivity.
+Qed.
+
+Theorem inflight_bound c s :
+  (1 <= c_gomaxprocs c)%Z -> reachable (qstep fv) (init c) s ->
+  (Z.of_nat (pulled s) - Z.of_nat (next s) <= norm_buf (norm_par (c_gomaxprocs c) (c_par c)) (c_bufsz c) + 1)%Z.
+Proof.
+  intros Hgm Hr. pose proof (reachable_inv fv _ _ Hgm Hr) as HI.
+  destruct (reachable_conf fv _ _ Hr) as (_ & _ & _ & Hbuf & _). start HI.
+  pose proof (norm_par_pos _ (c_par c) Hgm) as Hp.
+  pose proof (norm_buf_ge (norm_par (c_gomaxprocs c) (c_par c)) (c_bufsz c)) as Hb.
+  assert (Hpt : pulled s <= S (taken s)).
+  { unfold d_ok in Hdok. destruct (disp s); try destruct Hdok as (? & ? & ?); try destruct Hdok as [[? ?] [? ?]]; lia. }
+  assert (Z.of_nat (buf s) = norm_buf (norm_par (c_gomaxprocs c) (c_par c)) (c_bufsz c)) by (rewrite Hbuf; lia).
+  lia.
+Qed.
+
+Corollary inflight_bound_property c s :
+  (1 <= c_gomaxprocs c)%Z -> reachable (qstep fv) (init c) s ->
+  (Z.of_nat (pulled s) - Z.of_nat (next s) <= Z.max 0 (c_bufsz c) + norm_par (c_gomaxprocs c) (c_par c) + 1)%Z.
+Proof.
+  intros Hgm Hr. pose proof (inflight_bound _ _ Hgm Hr) as H.
+  pose proof (norm_par_pos _ (c_par c) Hgm) as Hp.
+  unfold norm_buf in H. destruct (c_bufsz c <? norm_par (c_gomaxprocs c) (c_par c))%Z eqn:E; [lia|].
+  apply Z.ltb_ge in E. lia.
+Qed.
+
+Theorem no_deadlock c s :
+  (1 <= c_gomaxprocs c)%Z -> reachable (qstep fv) (init c) s -> in_call s -> progress s.
+Proof.
+  intros Hgm Hr. apply progress_inv; [eapply reachable_inv; eauto | eapply reachable_inv2; eauto].
+Qed.
+
+(* the error Next reports: justified by what the source / f / the caller did; and whatever was
+   yielded before is [map f] of a prefix that stops before every item on which f failed *)
+Theorem error_contract c s e :
+  (1 <= c_gomaxprocs c)%Z -> reachable (qstep fv) (init c) s -> cons s = KRet (RErr e) ->
+  valid_err_s s e /\
+  yielded s = map fv (firstn (next s) (c_items c)) /\
+  (forall k, In k (failed s) -> next s <= k).
+Proof.
+  intros Hgm Hr Hc. pose proof (reachable_inv fv _ _ Hgm Hr) as HI.
+  destruct (reachable_conf fv _ _ Hr) as (Hsrc & _). start HI. rewrite Hsrc in *.
+  split; [apply Hreterr; exact Hc|]. split; [exact Hyield|].
+  intros k Hk. apply (Hfailed k Hk).
+Qed.
+
+(* without Close and without a cancellation of the caller's context, the error is one that f
+   returned for an item not yet yielded, or the one the source returned: never a cancellation *)
+Corollary error_contract_own c s e :
+  (1 <= c_gomaxprocs c)%Z -> reachable (qstep fv) (init c) s -> cons s = KRet (RErr e) ->
+  close_called s = false -> pdone s = false ->
+  (exists k, e = EF k /\ In k (failed s) /\ nthb (c_ferr c) k = true /\ next s <= k) \/
+  (e = ESrc /\ srcfailed s = true).
+Proof.
+  intros Hgm Hr Hc Hcc Hpd. destruct (error_contract _ _ _ Hgm Hr Hc) as (Hv & _ & Hf).
+  destruct (reachable_conf fv _ _ Hr) as (_ & Hfe & _).
+  unfold valid_err_s in Hv. rewrite Hcc, Hpd, Hfe in Hv. destruct e as [k| |cz]; simpl in Hv.
+  - left. exists k. destruct Hv as [Hin Hfk]. auto.
+  - right. auto.
+  - destruct cz; try discriminate Hv; contradiction.
+Qed.
+
+(* Close: while it is running some library step is enabled or an up-call is still running
+   ([no_deadlock]); when it has returned every goroutine of the errgroup has finished and the
+   source has been closed exactly once; the source is never closed twice *)
+Theorem close_returns c s :
+  (1 <= c_gomaxprocs c)%Z -> reachable (qstep fv) (init c) s ->
+  src_closed s <= 1 /\
+  ((cons s = KClose1 \/ cons s = KClose2) -> progress s) /\
+  (kclosed (cons s) = true ->
+   disp s = SDone /\ (forall w x, nth_error (ws s) w = Some x -> x = TDone) /\ src_closed s = 1).
+Proof.
+  intros Hgm Hr. pose proof (reachable_inv fv _ _ Hgm Hr) as HI. pose proof (reachable_inv2 _ _ Hr) as HI2.
+  split; [|split].
+  - start HI. rewrite Hsrccl. destruct (dclosed (disp s)); simpl; lia.
+  - intros Hc. apply progress_inv; [exact HI | exact HI2|]. unfold in_call. destruct Hc as [-> | ->]; split; discriminate.
+  - intros Hk. pose proof (i_kclosed _ _ HI Hk) as He.
+    destruct (all_done s (i_egdone _ _ HI) He) as [Hall Hsd].
+    split; [exact Hsd|]. split; [exact Hall|]. rewrite (i_srcclosed _ _ HI), Hsd. reflexivity.
+Qed.
+
+(* ---- the assumption behind "Close returns": f and the source return once their context is
+        cancelled.  In the model this is how the harness's up-calls behave; here we check that in
+        every reachable state with the group's context cancelled each pending up-call has an
+        enabled return label (so [env_pending] is an obligation the environment can meet). ---- *)
+Definition gates_ok (c : cfg) (s : st) : Prop :=
+  fgated s = c_fgated c /\ sgated s = c_sgated c /\
+  (forall k, k < length (c_fgated c) -> nthb (c_fgated c) k = false -> nthb (frel s) k = true) /\
+  (forall k, k < length (c_sgated c) -> nthb (c_sgated c) k = false -> nthb (srel s) k = true).
+
+Lemma nthb_map_negb l k : k < length l -> nthb (map negb l) k = negb (nthb l k).
+Proof.
+  unfold nthb. revert k. induction l as [|h t IH]; intros [|k] H; simpl in *; try lia; auto. apply IH. lia.
+Qed.
+
+Lemma nthb_upd_mono l k j : nthb l j = true -> nthb (upd l k true) j = true.
+Proof.
+  unfold nthb. revert k j. induction l as [|h t IH]; intros [|k] [|j] H; simpl in *; auto.
+Qed.
+
+Lemma gates_step c s l s' : gates_ok c s -> step fv s l = Some s' -> gates_ok c s'.
+Proof.
+  unfold gates_ok. intros HC Hs. unfold step in Hs.
+  destruct l; dstep Hs; try discriminate Hs; injection Hs as Hs; subst s';
+    cbn [fgated sgated frel srel set_disp set_w set_cons set_g set_harness]; try exact HC.
+  - destruct HC as (H1 & H2 & H3 & H4). repeat split; auto. intros j Hj Hf. apply nthb_upd_mono. auto.
+  - destruct HC as (H1 & H2 & H3 & H4). repeat split; auto. intros j Hj Hf. apply nthb_upd_mono. auto.
+Qed.
+
+Theorem reachable_gates c s : reachable (qstep fv) (init c) s -> gates_ok c s.
+Proof.
+  apply invariant_rule.
+  - unfold gates_ok, init; simpl. repeat split; auto; intros k Hk Hf; rewrite nthb_map_negb, Hf by exact Hk; reflexivity.
+  - intros s0 l s1 HI Hq. destruct (qstep_cases fv _ _ _ Hq) as [[_ ->]|Hs]; [exact HI | eapply gates_step; eauto].
+Qed.
+
+Lemma wsum_ge {A} (m : A -> nat) l w x : nth_error l w = Some x -> m x <= wsum m l.
+Proof.
+  revert w; induction l as [|h t IH]; intros [|w] H; simpl in *; try discriminate.
+  - inversion H; subst. lia.
+  - specialize (IH w H). lia.
+Qed.
+
+Theorem env_can_return c s :
+  (1 <= c_gomaxprocs c)%Z -> reachable (qstep fv) (init c) s ->
+  length (c_fgated c) = length (c_items c) -> length (c_sgated c) = S (length (c_items c)) ->
+  g s <> GLive ->
+  (forall w k, nth_error (ws s) w = Some (TInF k) -> exists o s', step fv s (LFExit w k o) = Some s') /\
+  (disp s = SInSrc -> exists o s', step fv s (LSrcExit o) = Some s') /\
+  (forall r, disp s = SInClose r -> exists s', step fv s LSrcCloseExit = Some s').
+Proof.
+  intros Hgm Hr Hlf Hls Hgd. pose proof (reachable_inv fv _ _ Hgm Hr) as HI.
+  destruct (reachable_conf fv _ _ Hr) as (Hsrc & _). destruct (reachable_gates _ _ Hr) as (Hfg & Hsg & Hfr & Hsr).
+  destruct (g s) as [|cz] eqn:Eg; [congruence|]. start HI. split; [|split].
+  - intros w k Hw.
+    assert (Hk : k < length (c_items c)).
+    { specialize (Hcnt k). unfold cnt, inrange in Hcnt.
+      assert (Hge : 1 <= wcnt k (ws s)).
+      { pose proof (wsum_ge (fun q => b2n (holdsb k q)) (ws s) w _ Hw) as Hge. cbv beta in Hge.
+        unfold holdsb in Hge at 1. simpl in Hge. rewrite Nat.eqb_refl in Hge. exact Hge. }
+      assert (Hnd : k < ndisp s) by bdestr.
+      rewrite <- Hsrc. unfold d_ok in Hdok.
+      destruct (disp s); try destruct Hdok as (? & ? & ?); try destruct Hdok as [[? ?] [? ?]]; lia. }
+    unfold step, getw. rewrite Hw, Nat.eqb_refl.
+    destruct (nthb (fgated s) k) eqn:Efg.
+    + exists FoCtx. cbv beta iota. rewrite ?Eg, ?Efg. eexists; reflexivity.
+    + assert (Hrel : nthb (frel s) k = true) by (apply Hfr; [lia | rewrite <- Hfg; exact Efg]).
+      destruct (nthb (ferr s) k) eqn:Efe.
+      * exists FoErr. cbv beta iota. rewrite ?Hrel, ?Efe. eexists; reflexivity.
+      * exists FoOk. cbv beta iota. rewrite ?Hrel, ?Efe. eexists; reflexivity.
+  - intros Ed. unfold step. rewrite Ed.
+    destruct (nthb (sgated s) (pulled s)) eqn:Esg.
+    + exists SoCtx. cbv beta iota. rewrite ?Eg, ?Esg. eexists; reflexivity.
+    + assert (Hrel : nthb (srel s) (pulled s) = true).
+      { apply Hsr; [rewrite Hls, <- Hsrc; lia | rewrite <- Hsg; exact Esg]. }
+      destruct (pulled s <? length (src s)) eqn:El.
+      * exists (SoItem (pulled s)). cbv beta iota. rewrite ?Nat.eqb_refl, ?El, ?Hrel. eexists; reflexivity.
+      * apply Nat.ltb_ge in El. assert (Heq : pulled s = length (src s)) by lia.
+        destruct (serr s) eqn:Ese.
+        -- exists SoErr. cbv beta iota. rewrite (proj2 (Nat.eqb_eq _ _) Heq), ?Hrel. eexists; reflexivity.
+        -- exists SoEnd. cbv beta iota. rewrite (proj2 (Nat.eqb_eq _ _) Heq), ?Hrel. eexists; reflexivity.
+  - intros r Ed. unfold step. rewrite Ed. eexists; reflexivity.
+Qed.
+End Thms.
+End MST.
+
+(* ------------------------------------------------------------------ *)
+(* Part 5: non-vacuity — concrete runs of both models                   *)
+(* ------------------------------------------------------------------ *)
+Definition fx (x : Z) : Z := (x * 3 + 7)%Z.
+
+Module ExI.
+Import MI.
+(* parallelism 1, bufferSize 0 (-> 1), three items, f gated on item 0: the dispatcher parks in
+   cond.Wait holding item 1 while item 0 is in f: taken - yielded = bufferSize + 1 (the bound is tight),
+   the state is quiescent, the consumer is inside Next; after the release Next returns f(item 0) and the
+   Signal wakes the dispatcher *)
+Definition c_init := init 1 1 0 [10; 20; 30]%Z [true; false; false].
+Definition ls1 : list lab :=
+  [LReqNext; LCallNext; TLoop; LSrcEnter; LSrcExit (Some 0); TAcquire; TDispatch 0; LFEnter 0 0;
+   LSrcEnter; LSrcExit (Some 1); TAcquire; LQuiesce].
+Definition ls2 : list lab := ls1 ++ [LRelease 0; LFExit 0 0; TResult 0; TLoop; LRetNext (Some 37%Z)].
+
+Example run_tight :
+  option_map (fun s => (pulled s, next s, disp s, inflight s, cons s)) (run (qstep fx) c_init ls1)
+  = Some (2, 0, DParked 1, 1%Z, CRecv).
+Proof. vm_compute. reflexivity. Qed.
+
+Example run_signal :
+  option_map (fun s => (pulled s, next s, disp s, inflight s, cons s, yielded s)) (run (qstep fx) c_init ls2)
+  = Some (2, 1, DAcq 1, 0%Z, CIdle, [37%Z]).
+Proof. vm_compute. reflexivity. Qed.
+
+(* the bound of [MIP.inflight_bound] is attained in a reachable state in which Next is pending *)
+Example bound_tight :
+  exists s, reachable (qstep fx) c_init s /\ MIP.in_next s /\
+            (Z.of_nat (pulled s) - Z.of_nat (next s) = norm_buf (norm_par 1 1) 0 + 1)%Z.
+Proof.
+  destruct (run (qstep fx) c_init ls1) as [s|] eqn:E; [|vm_compute in E; discriminate E].
+  exists s. split; [exists ls1; exact E|].
+  vm_compute in E. inversion E; subst s. split; [unfold MIP.in_next; simpl; discriminate | reflexivity].
+Qed.
+End ExI.
+
+Module ExS.
+Import MS.
+(* parallelism 2, bufferSize 0 (-> 2), two items, f fails on item 1: Next yields f(item 0), then reports
+   the error of f(item 1) (recorded by the errgroup, which cancels the group's context); then Close
+   returns with both workers and the dispatcher finished and the source closed once *)
+Definition c0 := mkCfg 1 2 0 [10; 20]%Z [false; true] false [false; false] [false; false; false] 1.
+Definition ls1 : list lab :=
+  [LReq (RqNext 0); LCallNext 0; TLoop; LSrcEnter; LSrcExit (SoItem 0); TDReady; TDispatch 0; LFEnter 0 0;
+   LFExit 0 0 FoOk; TWSend 0; TRecv; TLoop; TPut; LRetNext (RVal 37%Z);
+   LSrcEnter; LSrcExit (SoItem 1); TDReady; TDispatch 0; LFEnter 0 1; LFExit 0 1 FoErr; TWExit 0; TWRet 0;
+   LSrcEnter; LSrcExit SoEnd; TCloseIn; LSrcCloseEnter; LSrcCloseExit; TDRet; TInClosed 1; TWExit 1; TWRet 1;
+   LReq (RqNext 0); LCallNext 0; TLoop; TCClosed; TWait].
+Definition ls2 : list lab :=
+  ls1 ++ [LRetNext (RErr (EF 1)); LQuiesce; LReq RqClose; LCallClose; TCloseCancel; TCloseWait; LRetClose; LQuiesce].
+
+Example run_error :
+  option_map (fun s => (cons s, yielded s, failed s, g s, eg_err s)) (run (qstep fx) (init c0) ls1)
+  = Some (KRet (RErr (EF 1)), [37%Z], [1], GDone ByError, Some (EF 1)).
+Proof. vm_compute. reflexivity. Qed.
+
+Example run_close :
+  option_map (fun s => (cons s, disp s, ws s, src_closed s)) (run (qstep fx) (init c0) ls2)
+  = Some (KClosed, SDone, [TDone; TDone], 1).
+Proof. vm_compute. reflexivity. Qed.
+
+(* the hypotheses of [MST.error_contract] / [MST.close_returns] are satisfiable *)
+Example error_reachable :
+  exists s, reachable (qstep fx) (init c0) s /\ cons s = KRet (RErr (EF 1)) /\
+            close_called s = false /\ pdone s = false.
+Proof.
+  destruct (run (qstep fx) (init c0) ls1) as [s|] eqn:E; [|vm_compute in E; discriminate E].
+  exists s. split; [exists ls1; exact E|]. vm_compute in E. inversion E; subst s. simpl. auto.
+Qed.
+
+Example close_reachable :
+  exists s, reachable (qstep fx) (init c0) s /\ MSP.kclosed (cons s) = true.
+Proof.
+  destruct (run (qstep fx) (init c0) ls2) as [s|] eqn:E; [|vm_compute in E; discriminate E].
+  exists s. split; [exists ls2; exact E|]. vm_compute in E. inversion E; subst s. reflexivity.
+Qed.
+End ExS.
